@@ -279,6 +279,20 @@ func c12Thresholds(c *Ctx) {
 				ok41 = mustPass(fn, e.Instr.Block(), out)
 			}
 		}
+		// the same search written as `for v < lx { if s == 40 { return 41 }; v *= 3; s++ }; return s`: the miss edge
+		// v < lx is the loop condition, and 41 is returned exactly when the 41st comparison (s == 40, v = 3^40) missed too
+		if !(ok41 && in) {
+			miss := plainEdges(edgesMatching(b, "bin<<>("+v+", "+lx+")"))
+			last := edgesMatching(b, "bin<==>(ind<+1>(0), 40)")
+			if len(miss) == 1 && len(last) == 1 && mustPass(fn, last[0].From, miss) {
+				for _, e := range ana.Exits(fn) {
+					if !e.Panic && b.Of(e.Results[0], e.Instr).IsInt(41) {
+						ok41 = mustPass(fn, e.Instr.Block(), plainEdges(last))
+						in = true
+					}
+				}
+			}
+		}
 		r.Check(okS && ok41 && in && len(hit) == 1, "C12.thresholds.sufficient-zeros", c.P.Pos(fn.Pos()), "s = first index in 0..40 with 3^index >= lx (v starts at 1, ×3 per step, test `>=`), else 41 (hit=%v none=%v loop=%v)", okS, ok41, in)
 	}
 	// Score and difficulty
